@@ -5,7 +5,7 @@
    then over the arguments of the call being judged in the reached state. *)
 From Coq Require Import List NArith ZArith Bool.
 From BLB Require Import Store.Bytes Store.BytesProofs Store.Model Store.Proofs Store.WF Store.Conflict Store.Mono
-     Store.Steps Store.Monotone Store.Readd Store.FaultModel Store.Faults Store.Crash Store.CrashProofs Store.CrashInv C09.Model C09.Proofs.
+     Store.Steps Store.Monotone Store.Readd Store.FaultModel Store.Faults Store.Crash Store.CrashProofs Store.CrashInv Store.CrashPull C09.Model C09.Proofs.
 Import ListNotations.
 
 (* [FULL] Read succeeds (NoError or EOF) iff the named version is the served copy's version and then returns exactly the stored bytes of the range, otherwise returns no bytes; Stat succeeds iff the version is current and then returns the stored size, otherwise 0; reads and stats never change the state; Write succeeds iff the version is current and then the served copy is the old content overwritten at the offset with the same version, otherwise the state is unchanged except that the named tract's mod stamp IS bumped, files and disk table untouched *)
@@ -284,3 +284,32 @@ Theorem faulted_ops_keep_wf_and_versions :
                          ver_le fl fl').
 Proof. exact faulted_ops_lemma. Qed.
 Print Assumptions faulted_ops_keep_wf_and_versions.
+
+(* [FULL] a PullTract with any fault position whose pre-check disk calls, the Open and the Close of its look at the local copy, succeed in every source round never lowers the visible or the durable version of any existing copy, of the pulled tract or of any other. In particular when the local copy is newer than the requested version such a round refuses with ErrInvalidState and the only effect is that the look synced the copy, and when the local copy is equal or older it is deleted and re-copied at the requested version as the code does *)
+Theorem faulted_pull_refuses_newer_copy :
+  forall m xs0 f t srcs v orc,
+    let cs := xrun (cinit m) xs0 in
+    (pre_ok cs f t srcs v orc ->
+     forall pd t0,
+       let cs' := fst (x_step cs f (PullTract t srcs v orc)) in
+       (forall fl fl', copy (vs cs) pd t0 = Some fl -> copy (vs cs') pd t0 = Some fl' -> ver_le fl fl') /\
+       (forall g g', durable_copy cs pd t0 = Some g -> durable_copy cs' pd t0 = Some g' -> ver_le g g')) /\
+    (forall r pd fl c,
+        precheck_err cs f t = false ->
+        open_existing (vs cs) t = Op_ok pd fl -> f_ver fl = Some c -> (v < c)%Z ->
+        x_pull_once cs f t r v orc = (d_clear cs pd t, snd (tick (snd (tick f))), E_InvalidState)).
+Proof. exact faulted_pull_lemma. Qed.
+Print Assumptions faulted_pull_refuses_newer_copy.
+
+(* [FULL] summary without a blanket PullTract exclusion. After every history of faulted operations and power losses, an operation with any fault position lowers neither the visible nor the durable version of any stored copy that exists before and after it, unless it is a PullTract one of whose pre-check disk calls fails. A power loss never changes a durable copy and makes the visible copy equal to it. So the only version-lowering events are exactly the two named ones, a power loss taking the visible copy back to its durable image, and the PullTract whose look at the local copy meets an I/O error *)
+Theorem versions_lowered_only_by_named_events :
+  forall m xs0 f o pd t,
+    let cs := xrun (cinit m) xs0 in
+    (x_ok cs f o ->
+     let cs' := fst (x_step cs f o) in
+     (forall fl fl', copy (vs cs) pd t = Some fl -> copy (vs cs') pd t = Some fl' -> ver_le fl fl') /\
+     (forall g g', durable_copy cs pd t = Some g -> durable_copy cs' pd t = Some g' -> ver_le g g')) /\
+    durable_copy (power_loss cs) pd t = durable_copy cs pd t /\
+    copy (vs (power_loss cs)) pd t = durable_copy cs pd t.
+Proof. exact named_events_lemma. Qed.
+Print Assumptions versions_lowered_only_by_named_events.
